@@ -15,8 +15,11 @@ def reSearch (pattern : String) (s : Str) : Bool :=
   else if pattern = "[+/-]" then s.any (fun c => c == '+' || c == '/' || c == '-')
   else false
 
-/-- `pattern.match(s) is not None` -/
-def reMatch (pattern : String) (s : Str) : Bool :=
+/-- `pattern.match(s) is not None` (no pattern of `LuceneCheck` is used with `match` any more: fix F8) -/
+def reMatch (pattern : String) (s : Str) : Bool := false
+
+/-- `pattern.fullmatch(s) is not None` -/
+def reFullmatch (pattern : String) (s : Str) : Bool :=
   if pattern = "^\\w+$" then validFieldName s
   else false
 
